@@ -126,6 +126,31 @@ theorem full_statement_false_witness :
   have : hu 0x7F ≠ repl 0x7F := by decide
   exact this h.2.2.1.1
 
+/-! #### adjacent surrogate code points -/
+
+/-- every surrogate code point is filtered, and the property agrees: one U+FFFD for it -/
+theorem surrogate_hu (c : Nat) (hlo : 0xD800 ≤ c) (hhi : c ≤ 0xDFFF) : hu c = 0xFFFD ∧ repl c = 0xFFFD := by
+  have hf : filtered c = true := by
+    simp [filtered, inRanges, OdfModel.Generated.filteredRanges]
+    grind
+  have hx : isXmlChar c = false := by
+    simp [isXmlChar]
+    grind
+  simp [hu, repl, hf, hx]
+
+/-- **C02 (a high surrogate immediately followed by a low one)**: the filter works code point by code point, so a string
+    in which a high surrogate (U+D800..DBFF) is directly followed by a low surrogate (U+DC00..DFFF) - two code points
+    of the tree, neither representable in XML 1.0 - is written as TWO U+FFFD, whatever stands before and after; the
+    pair is never read as the one supplementary character it would encode in UTF-16 (the length is preserved). -/
+theorem surrogate_pair_two_replacements (pre post : Str) (h l : Nat)
+    (hh : 0xD800 ≤ h ∧ h ≤ 0xDBFF) (hl : 0xDC00 ≤ l ∧ l ≤ 0xDFFF) :
+    handleUnrep (pre ++ h :: l :: post) = handleUnrep pre ++ 0xFFFD :: 0xFFFD :: handleUnrep post ∧
+    (pre ++ h :: l :: post).map repl = pre.map repl ++ 0xFFFD :: 0xFFFD :: post.map repl ∧
+    (handleUnrep (pre ++ h :: l :: post)).length = (pre ++ h :: l :: post).length := by
+  have a := surrogate_hu h hh.1 (by omega)
+  have b := surrogate_hu l (by omega) hl.2
+  simp [handleUnrep, a.1, a.2, b.1, b.2]
+
 /-! #### attribute order and the assembled parts -/
 
 /-- attribute order is free: the parser's attribute list is the tree's, entry by entry (so any permutation of the
